@@ -60,6 +60,9 @@ MUTATIONS = {
     'M25': dict(what='M25: RDF: a node_mapper answering False also suppresses the has_child triple of that node', file='nutree/rdf.py',
         old='    if parent_graph_node is not None:\n        graph.add((parent_graph_node, NUTREE_NS.has_child, graph_node))\n\n    if res is False:\n        # node_mapper wants to prevent adding standard attributes?\n        return graph_node\n',
         new='    if res is False:\n        # node_mapper wants to prevent adding standard attributes?\n        return graph_node\n\n    if parent_graph_node is not None:\n        graph.add((parent_graph_node, NUTREE_NS.has_child, graph_node))\n'),
+    'M26': dict(what='M26: DOT: a section comment line reworded (harmless for Graphviz; breaks the source-line obligation and the strict parser)', file='nutree/dot.py',
+        old='    yield f"{indent}# Edge Definitions"',
+        new='    yield f"{indent}# Edges"'),
 }
 
 if __name__ == "__main__":
